@@ -227,7 +227,8 @@ class Ridge2FoldCV(BaseEstimator, MultiOutputMixin, RegressorMixin):
 
         # The scorer want an object that will make the predictions but
         # they are already computed efficiently. This
-        # identity_estimator will just return them
+        # identity_estimator will just return them: the scorer is called as
+        # scorer(estimator, X, y_true), so the predictions are passed as X
         identity_estimator = _IdentityRegressor()
 
         # we use the the maximum eigenvalue of both fold, to simplify the code
@@ -240,16 +241,16 @@ class Ridge2FoldCV(BaseEstimator, MultiOutputMixin, RegressorMixin):
             n_alpha_fold1 = min(n_fold1, sum(s_fold1 > alpha))
             loss_1_to_2 = scorer(
                 identity_estimator,
-                y_fold2,
                 (X_fold2_V_fold1[:, :n_alpha_fold1] / s_fold1[:n_alpha_fold1])
                 @ Ut_fold1_y_fold1[:n_alpha_fold1],
+                y_fold2,
             )
             n_alpha_fold2 = min(n_fold2, sum(s_fold2 > alpha))
             loss_2_to_1 = scorer(
                 identity_estimator,
-                y_fold1,
                 (X_fold1_V_fold2[:, :n_alpha_fold2] / s_fold2[:n_alpha_fold2])
                 @ Ut_fold2_y_fold2[:n_alpha_fold2],
+                y_fold1,
             )
             return (loss_1_to_2 + loss_2_to_1) / 2
 
@@ -257,21 +258,21 @@ class Ridge2FoldCV(BaseEstimator, MultiOutputMixin, RegressorMixin):
             # error approximating X2 a-fitted model and vice versa
             loss_1_to_2 = scorer(
                 identity_estimator,
-                y_fold2,
                 (
                     X_fold2_V_fold1
                     * (s_fold1[:n_fold1] / (s_fold1[:n_fold1] ** 2 + alpha))
                 )
                 @ Ut_fold1_y_fold1,
+                y_fold2,
             )
             loss_2_to_1 = scorer(
                 identity_estimator,
-                y_fold1,
                 (
                     X_fold1_V_fold2
                     * (s_fold2[:n_fold2] / (s_fold2[:n_fold2] ** 2 + alpha))
                 )
                 @ Ut_fold2_y_fold2,
+                y_fold1,
             )
             return (loss_1_to_2 + loss_2_to_1) / 2
 
